@@ -43,10 +43,23 @@ QS = {
 }
 
 
+def _safe_repr(v, limit):
+    """repr of module-level state; a container that (under a seeded change) holds symbolic values cannot always be
+    rendered inside the tracer - its type, length and keys are state enough to see it grow"""
+    try:
+        return repr(v)[:limit]
+    except Exception:  # noqa: BLE001
+        try:
+            keys = sorted(str(k) for k in v.keys())[:50] if isinstance(v, dict) else None
+        except Exception:  # noqa: BLE001
+            keys = None
+        return "<%s len=%d keys=%s>" % (type(v).__name__, len(v), keys)
+
+
 def _mutable_repr(v):
     import inspect as _i
     if isinstance(v, (list, dict, set)):
-        return repr(v)[:2000]
+        return _safe_repr(v, 2000)
     if _i.isgenerator(v):
         # a generator / iterator kept at module level wears out with use: record how far it has been consumed
         return ("generator", _i.getgeneratorstate(v), v.gi_frame.f_lasti if v.gi_frame is not None else -1)
@@ -69,7 +82,7 @@ def snapshot():
             if gname.startswith("__"):
                 continue
             if isinstance(g, (list, dict, set)):
-                snap["%s.%s" % (mname, gname)] = (len(g), repr(g)[:3000])
+                snap["%s.%s" % (mname, gname)] = (len(g), _safe_repr(g, 3000))
             elif isinstance(g, (int, float, str, bytes, tuple, frozenset, type(None))):
                 snap["%s.%s" % (mname, gname)] = repr(g)[:300]
             elif _mutable_repr(g) is not None and not inspect.isclass(g) and not inspect.isfunction(g) and not inspect.ismodule(g) \
